@@ -811,6 +811,7 @@ func heapNow() uint64 {
 //
 //	head:   a request head whose field line never ends (64 MiB and counting)
 //	reject: an upstream proxy that refuses the transport's CONNECT with a body of 64 MiB
+//	method: 128 requests, each with a method token of 512 KiB that was never used before
 func c12Mem(e *env) {
 	const total, step, bound = 64 << 20, 64 << 10, 24 << 20
 	chunk := bytes.Repeat([]byte("a"), step)
@@ -923,6 +924,47 @@ func c12Mem(e *env) {
 			case <-time.After(100 * time.Millisecond):
 				peak()
 			}
+		}
+	})
+	// ---- requests whose method is a new token every time (a method is any token the client likes)
+	// (an origin that keeps nothing of what it reads)
+	org := startPeer("OM", &hitLog{}, nil, func(p *peer, conn net.Conn, idx int) {
+		br := bufio.NewReaderSize(conn, 64<<10)
+		tail := ""
+		for !strings.HasSuffix(tail, "\r\n\r\n") {
+			b, err := br.ReadByte()
+			if err != nil {
+				return
+			}
+			if tail += string(b); len(tail) > 4 {
+				tail = tail[len(tail)-4:]
+			}
+		}
+		io.WriteString(conn, "HTTP/1.1 200 OK\r\nContent-Length: 0\r\nConnection: close\r\n\r\n")
+	})
+	defer org.close()
+	f3, err := startFwd(fwdCfg{Name: "fwd", Localhost: "allow"})
+	if err != nil {
+		fatal("start: %v", err)
+	}
+	defer f3.stop()
+	f3.mapName("origin.test:80", org.addr())
+	run("request methods that are new every time", func(peak func()) {
+		const each = 512 << 10
+		for i := 0; i < total/each; i++ {
+			c, err := net.DialTimeout("tcp", f3.addr, 5*time.Second)
+			if err != nil {
+				fatal("dial: %v", err)
+			}
+			c.SetDeadline(time.Now().Add(30 * time.Second))
+			for sent := 0; sent < each; sent += step {
+				if _, err := c.Write(bytes.ToUpper(chunk)); err != nil {
+					break
+				}
+			}
+			fmt.Fprintf(c, "%d http://origin.test/m HTTP/1.1\r\nHost: origin.test\r\nConnection: close\r\n\r\n", i)
+			io.Copy(io.Discard, c)
+			c.Close()
 		}
 	})
 }
